@@ -141,6 +141,13 @@ structure St where
   /-- last `st` of the CMS profile -/
   cms     : Json := Json.null
   synced  : Bool := true
+  /-- contents the proxy really signed: (nonce, entries) -/
+  madeReq  : List (Nat × List (String × Nat × String)) := []
+  /-- contents honest signers really signed: (key, nonce, number, entries) -/
+  madeResp : List (Nat × Nat × Nat × List (String × Nat × String)) := []
+  /-- the harness (which holds every key) delivered a message no network attacker could have made:
+  from here on the history is outside the theorems' scope, the oracle is not consulted -/
+  tainted : Bool := false
 
 def slookup (l : List (String × Signer)) (n : String) : Option Signer :=
   (l.find? (·.1 == n)).map (·.2)
@@ -569,6 +576,36 @@ def step (st : St) (op : List String) (obs : Json) : St × String :=
             a.fail s!"return value {ret} does not match the stored command result" else a
         | none => a
       | _ => a
+    -- what was really signed, and deliveries of things that were not (Dolev-Yao admissibility)
+    let outJ := jget obs "out"
+    let a := match op with
+      | "mkreq" :: rest | "getreq" :: rest =>
+        if ret == "ok" && rest.headD "" != "B" && !(jisNull outJ) then
+          { a with st := { a.st with madeReq := (jtok (jget outJ "nonce"), entries (jget outJ "ent")) :: a.st.madeReq } }
+        else a
+      | "sign" :: _ =>
+        let m := jget obs "m"
+        let forged := jtok (jget m "sig") == pid && (jbool? (jget m "same")) == some true &&
+          !(a.st.madeReq.contains (jtok (jget m "nonce"), entries (jget m "ent")))
+        let a : Acc := if forged && !(jisNull m) then
+            let a1 := a.tag "x/forged-inadmissible"
+            { a1 with st := { a1.st with tainted := true } }
+          else a
+        if ret == "ok" && !(jisNull outJ) then
+          { a with st := { a.st with madeResp :=
+              (jtok (jget outJ "sig"), jtok (jget outJ "nonce"), jnat (jget outJ "num"), entries (jget outJ "ent")) :: a.st.madeResp } }
+        else a
+      | "resp" :: _ =>
+        let m := jget obs "m"
+        let honestKeys := (a.st.signers.map fun (x : String × Signer) => x.2.idKey) ++ [jtok (jpath obs ["signers", "B", "id"])]
+        let forged := !(jisNull m) && honestKeys.contains (jtok (jget m "sig")) && jtok (jget m "sig") != 0 &&
+          (jbool? (jget m "same")) == some true &&
+          !(a.st.madeResp.contains (jtok (jget m "sig"), jtok (jget m "nonce"), jnat (jget m "num"), entries (jget m "ent")))
+        if forged then
+          let a1 := a.tag "x/forged-inadmissible"
+          { a1 with st := { a1.st with tainted := true } }
+        else a
+      | _ => a
     -- model state = observed state
     let a := match a.st.proxy with
       | some p =>
@@ -582,7 +619,7 @@ def step (st : St) (op : List String) (obs : Json) : St × String :=
       else if signerProjOfModel s == signerProjOfObs sj then a
       else a.fail s!"signer {n}: model {repr (signerProjOfModel s)} implementation {repr (signerProjOfObs sj)}") a
     -- oracle
-    let orc := oracleExactlyOnce a.st ta ++ taNumbersOracle a.st ta
+    let orc := if a.st.tainted then [] else oracleExactlyOnce a.st ta ++ taNumbersOracle a.st ta
     let a := if orc.isEmpty then a else { a with fails := a.fails ++ ["ORACLE " ++ " ".intercalate orc] }
     { a with st := { a.st with lastNum := jnat? (jget ta "num") } }
   -- ---------------- CMS part
